@@ -52,8 +52,11 @@ func c04Run(rc *sim.RunCtx) {
 	var mods []srcModule
 	if prog < len(corpus) {
 		src = corpus[prog]
+	} else if prog < len(corpus)+len(edgeCorpus) {
+		src = edgeCorpus[prog-len(corpus)]
+		rc.Probe("size-edge-program")
 	} else {
-		g := newGen(t, genConfig{Modules: true, Hosts: true, Consts: true, MaxStmts: 12})
+		g := newGen(t, genConfig{Modules: true, Hosts: true, Consts: true, HostState: true, MaxStmts: 12})
 		src, mods = g.program()
 	}
 	mm := newModuleMap(append(append([]srcModule{}, fixedModules...), mods...))
@@ -111,6 +114,19 @@ func c04Run(rc *sim.RunCtx) {
 		return
 	}
 
+	// history of the encoder: bytes handed out by an earlier MarshalBinary stay valid while later programs are encoded
+	if m1, err := (*encoder.Bytecode)(bc).MarshalBinary(); err == nil {
+		snapshot := append([]byte(nil), m1...)
+		_, _ = (*encoder.Bytecode)(dec).MarshalBinary()
+		_, _ = (*encoder.Bytecode)(dec2).MarshalBinary()
+		rc.Fault("later-encode-after-marshal")
+		if !bytes.Equal(m1, snapshot) {
+			rc.Decoded = map[string]any{"script": src}
+			rc.Fail("encoded-bytes-overwritten", "marshal-result-overwritten", "the bytes returned by MarshalBinary changed while two other programs were encoded afterwards")
+			return
+		}
+	}
+
 	pool := &sim.SimPool{T: t, Always: 1}
 	restore := pool.Install()
 	defer restore()
@@ -119,6 +135,7 @@ func c04Run(rc *sim.RunCtx) {
 	defer restoreHook()
 	run := func(b *ugo.Bytecode) c08Result {
 		sc.Steps = 0
+		resetHostStates()
 		return c08RunOne(b, sim.NewWorld(ws, nil), args)
 	}
 	orig := run(bc)
